@@ -11,8 +11,8 @@ COMPONENTS = {
     "real": ["qs.qserve.Main.__init__/loaddb/savedb/run (Handler class, timer loops report/watchdog/handletimeouts, finally: savedb)",
              "qs.rpcserver.Server.handle_client (per-connection loop, reader greenlet, kill links, JSON framing, teardown)",
              "qs.rpcserver.Dispatcher/RequestHandler", "qs.qserve.QPlugin (all rpc_* and shutdown)", "qs.jobs.workq and job",
-             "qs.misc.CallInLoop", "gevent hub, Event, AsyncResult, Queue, Greenlet.kill, Pool (timers virtualised through a loop proxy)"],
-    "stub": ["TCP sockets (FakeSock: whole lines, EOF, reset with EPIPE on write/close, pipelining)",
+             "qs.misc.CallInLoop", "gevent.backdoor.BackdoorServer on an ephemeral loopback port (only in runs with the QSERVE_BACKDOOR knob)", "gevent hub, Event, AsyncResult, Queue, Greenlet.kill, Pool (timers virtualised through a loop proxy)"],
+    "stub": ["TCP sockets (FakeSock: text or binary makefile buffered until flush, sendall/recv, EOF, reset with EPIPE on write/close, pipelining, a failing bind for a start attempt)",
              "rpcserver.Server.__init__ and run_forever (they bind and serve a TCP socket)",
              "time.time / time.monotonic in qs.jobs (SimClock)", "random in qs.jobs (ScriptedRandom; optional)",
              "gevent timers (virtual, vsim/vtimer.py)", "worker and client processes (simulated clients issuing the RPCs)"],
